@@ -304,6 +304,14 @@ fn h1_box(prop: &str, thorough: bool) -> Vec<(Body, usize)> {
             }
         }
     }
+    if !thorough && prop == "C07" {
+        // queue length 3 (otherwise thorough only): one worker, three and four sets, one preemption -
+        // the single-worker order must hold with a long queue as well
+        for s in [3usize, 4] {
+            let base = H1 { threads: 1, queue: 3, sets: s, err_at: None, consumer: Consumer::Drain, reader_init_fails: false, dataset_init_fail_at: None, plain: false };
+            v.push((Body::H1(base), 1));
+        }
+    }
     v
 }
 
@@ -376,7 +384,7 @@ fn h2_box(prop: &str, thorough: bool) -> Vec<(Body, usize)> {
                         push(base.clone(), bound);
                         // the data sets themselves, through read_parallel: inputs whose records all fit
                         // (everything but the configuration that has to grow)
-                        if cap < 60_000 || format == Fmt::Fasta {
+                        if (cap < 60_000 || format == Fmt::Fasta) && nsets <= 3 && (t == 1 || q == 1) {
                             push(H2 { raw_fits: true, ..base.clone() }, bound.min(1));
                         }
                     }
